@@ -6,7 +6,11 @@ from common import Failure, coq_list
 from props import c03
 
 ID = "C05"
-GEN = ["gen_filters", "gen_dispatch"]
+GEN = ["gen_filters", "gen_dispatch", "gen_particle_tables", "gen_pobj", "gen_jetscapeloader", "gen_oscarloader"]
+EXTRA_PROPERTY_FILES = ["C05Bridge", "SrcPObj", "SrcJetscapeLoader", "SrcOscarLoader"]
+SOURCE_TIE_NOTE = ("constructor path: Model/CtorFilters.v per-event loop = events / count column of the loader models Oscar.load / jload / pload with the filter chain as their "
+    "per-event function, for every well-formed document, selector in range and admissible chain incl. the regenerated dispatch chains (Properties/C05Bridge.v, 12 theorems), "
+    "and those loader models equal the regenerated loaders (SrcOscarLoader, SrcJetscapeLoader, SrcPObj); labels after a dropped event are renumbered, as the code does")
 ALLOWED_AXIOMS = []
 MODEL_INDEPENDENT_OF_PROOFS = True
 TRUSTED = [
